@@ -101,7 +101,10 @@ class OM:
 
 
 def om_of_real(M):
-    d = M.export('dense')
+    try:
+        d = M.export('dense')
+    except Exception:
+        return None
     if d.ndim != 2 or tuple(d.shape) != tuple(M.shape):
         return None
     return OM([[Q.of(x) for x in r] for r in d], d.shape[1], d.dtype.kind == 'c')
@@ -215,10 +218,13 @@ def outcome(matrix, fn):
         M = fn()
     except Exception as e:
         return 'reject', (type(e).__name__, isinstance(e, matrix.MatrixError), str(e)[:100]), None
-    d = M.export('dense')
-    if d.ndim != 2 or tuple(d.shape) != tuple(M.shape):
-        return 'accept', ('badshape', list(d.shape), list(M.shape)), M
-    sd = split_dense(d)
+    try:
+        d = M.export('dense')
+        if d.ndim != 2 or tuple(d.shape) != tuple(M.shape):
+            return 'accept', ('badshape', list(d.shape), list(M.shape)), M
+        sd = split_dense(d)
+    except Exception as e:
+        return 'accept', ('badshape', 'export(dense) raises ' + type(e).__name__, str(e)[:80]), M
     return 'accept', sd, M
 
 
@@ -475,6 +481,14 @@ def eval_coo_case(c, matrix, k, a, ai):
                 or M.dtype != numpy.dtype(dtype) or tuple(M.shape) != (nr, nc):
             c.failing_input('assemble_coo-wrong-dense', 'assembled matrix differs from the dense matrix defined by the COO input', replay); return 1
         c.traces += 1
+        # the deprecated wrapper `matrix.assemble(data, index, shape)` must be the same thing
+        import warnings as _w
+        with _w.catch_warnings():
+            _w.simplefilter('ignore')
+            k2, p2, M2 = outcome(matrix, lambda: matrix.assemble(arr(v, w, dtype), (numpy.array(ri, dtype=int), numpy.array(ci, dtype=int)), (nr, nc)))
+        c.count('coo:deprecated-assemble')
+        if k2 != 'accept' or p2 != payload:
+            c.failing_input('assemble_coo-wrong-dense', 'matrix.assemble (deprecated wrapper) differs from assemble_coo', dict(replay, wrapper=[k2, p2])); return 1
     if cls != f[0] or (cls == 'valueerror' and ('bounds' in payload[2]) != (f[2] == 'bounds')):
         c.broken_no_input('corr:assemble_coo', 'model and implementation disagree on the outcome class (accept / ValueError bounds|monotonic / MatrixError)', replay); return 1
     return 0
@@ -487,14 +501,14 @@ DT = {0: float, 1: complex, 2: int}
 
 def gen_blocks(rng):
     R = rng.choice([1, 1, 2, 3]); C = rng.choice([1, 2, 2, 3])
-    nrs = [rng.choice([0, 1, 2, 3]) for _ in range(R)]
+    nrs = [rng.choice([0, 1, 1, 2, 2, 3, 3]) for _ in range(R)]
     total_w = None
     dt = rng.choice([0, 0, 1])
     blocks = []
-    style = rng.choice(['dense', 'sparse', 'sparse', 'oneper', 'allempty'])
+    style = rng.choice(['dense', 'dense', 'sparse', 'sparse', 'sparse', 'oneper', 'oneper', 'oneper', 'allempty'])
     for i in range(R):
         if i == 0 or rng.random() < .7:
-            ws = [rng.choice([0, 1, 2, 3]) for _ in range(C)] if i == 0 else ws0
+            ws = [rng.choice([0, 1, 2, 2, 3, 3]) for _ in range(C)] if i == 0 else ws0
         else:   # a different partition of the same total width
             Ci = rng.choice([1, 2, 3]); cuts = sorted(rng.randint(0, total_w) for _ in range(Ci - 1))
             ws = [b - a for a, b in zip([0] + cuts, cuts + [total_w])]
@@ -502,8 +516,8 @@ def gen_blocks(rng):
         one = rng.randrange(len(ws))
         row = []
         for j, w in enumerate(ws):
-            fill = dict(dense=.9, sparse=.35, oneper=(.9 if j == one else 0), allempty=0)[style]
-            if rng.random() < (1 - fill if style in ('dense', 'sparse') else 0):
+            fill = dict(dense=.9, sparse=.6, oneper=(1. if j == one else 0), allempty=0)[style]
+            if rng.random() < dict(dense=.1, sparse=.4, oneper=0, allempty=1)[style]:
                 v, rp, ci, nc = [], [0] * (nrs[i] + 1), [], w
             else:
                 v, rp, ci, nc = gen_valid_csr(rng, nrows=nrs[i], ncols=w, fill=fill)
@@ -512,7 +526,7 @@ def gen_blocks(rng):
     return blocks
 
 
-BLOCK_KINDS = ['none', 'none', 'none', 'none', 'dtype', 'rowsizes', 'colsizes', 'lengths', 'rp_first', 'colrange', 'negcol', 'rowptr-order', 'order']
+BLOCK_KINDS = ['none', 'none', 'none', 'lengths', 'dtype', 'rowsizes', 'colsizes', 'lengths', 'rp_first', 'colrange', 'negcol', 'rowptr-order', 'order']
 
 
 def corrupt_blocks(rng, blocks):
@@ -525,7 +539,10 @@ def corrupt_blocks(rng, blocks):
     elif kind == 'colsizes' and len(blocks) >= 2 and i >= 1:
         b['nc'] += 1
     elif kind == 'lengths' and b['v']:
-        if rng.random() < .5: b['v'] = b['v'] + [9]; b['ci'] = b['ci'] + [b['ci'][-1]]
+        r = rng.random()
+        if r < .25: b['v'] = b['v'] + [9]; b['ci'] = b['ci'] + [b['ci'][-1]]
+        elif r < .5: b['v'] = b['v'] + [9]                      # one value more than column indices / row pointers say
+        elif r < .75: b['ci'] = b['ci'] + [min(b['ci'][-1] + 1, b['nc'] - 1)]
         else: b['rp'] = b['rp'][:-1] + [b['rp'][-1] - 1]
     elif kind == 'rp_first' and len(b['v']) >= 1 and b['rp'][1] >= 1:
         b['rp'] = [1] + b['rp'][1:]
@@ -628,7 +645,10 @@ def eval_block_case(c, matrix, k, a, ai):
     finally:
         matrix.assemble_csr = orig
     f = a.split('|')
-    ok, why = py_blocks_ok(blocks)
+    ok_struct, why = py_blocks_ok(blocks)
+    # the Lean `blocksOK` is about the structure; equal dtypes are required on top of it (the code asserts them)
+    ok = ok_struct and all(b['dt'] == blocks[0][0]['dt'] for row in blocks for b in row)
+    if ok_struct and not ok: why = 'dtype'
     nnz_blocks = [sum(1 for b in row if b['v']) for row in blocks]
     c.count('block:' + tag); c.count('block-real:' + (kind if kind == 'accept' else payload[0]))
     if kind == 'accept':
@@ -638,7 +658,7 @@ def eval_block_case(c, matrix, k, a, ai):
     c.sample(dict(op='assemble_block_csr', blocks=[[[b['v'], b['rp'], b['ci'], b['nc']] for b in row] for row in blocks], real=kind), limit=9)
     replay = dict(op='assemble_block_csr', tag=tag, blocks=blocks, real=[kind, payload], model=a, model_imag=ai, captured=[(list(map(complex, t[0])),) + t[1:] for t in captured])
     spec = a[a.index('|ok='):].split('|')[1:]        # ok=., spec triple, blockDense
-    if (spec[0] == 'ok=1') != ok:
+    if (spec[0] == 'ok=1') != ok_struct:
         c.broken_no_input('corr:blocksOK-vs-python-spec', 'Lean blocksOK and the python transcription disagree', replay); return 1
     # --- property oracle
     if kind == 'accept' and not ok:
@@ -680,7 +700,7 @@ def eval_block_case(c, matrix, k, a, ai):
     if (ints(cv.real), ints(cv.imag) if cv.dtype.kind == 'c' else ints([0] * len(cv)), ints(crp), ints(cci), str(cnc)) != (mv, civ, mrp, mci, mnc):
         c.broken_no_input('corr:assemble_block_csr-merged-triple', 'the triple handed to assemble_csr differs from the code model (fast path / generic path / empty-block skipping / offsets)', replay); return 1
     if ok and f[4] != 'agrees=1' and f[1] == 'any=1':
-        c.broken_no_input('corr:block-code-model-vs-merge-spec', 'blockMergeCode and blockMerge differ on a well-formed block structure (block_code_partial)', replay); return 1
+        c.broken_no_input('corr:block-code-model-vs-merge-spec', 'blockMergeCode and blockMerge differ on a well-formed block structure (theorem block_code)', replay); return 1
     if rows(payload[0]) != f[3][len('accept:'):]:
         c.broken_no_input('corr:assemble_block_csr', 'dense result differs from the model', replay); return 1
     return 0
@@ -801,8 +821,8 @@ def gen_program(c, batch, length):
     names = lambda: [n for n in O]
     for _ in range(length):
         a = rng.choice(names()); X = O[a]
-        op = rng.choice(['add', 'sub', 'neg', 'mul', 'rmul', 'div', 'T', 'submatrix', 'submatrix', 'matvec', 'matmat', 'export', 'pickle', 'diagonal', 'rowsupp',
-                         'badshape', 'badtype', 'newsel', 'flipsel', 'subsel'])
+        op = rng.choice(['add', 'sub', 'sub', 'neg', 'mul', 'rmul', 'div', 'T', 'submatrix', 'submatrix', 'matvec', 'matmat', 'export', 'pickle', 'diagonal', 'rowsupp', 'rowsupp',
+                         'badshape', 'badtype', 'flipsel', 'flipsel', 'subsel', 'subsel', 'subsel'])
         st = dict(op=op, a=a)
         if op in ('add', 'sub'):
             same = [n for n in names() if O[n].shape == X.shape]
@@ -834,7 +854,10 @@ def gen_program(c, batch, length):
             st.update(name=nm, index=k); steps.append(st); continue
         elif op == 'subsel':
             rs = [n for n in sels if len(sels[n]) == X.nr]; cs = [n for n in sels if len(sels[n]) == X.nc]
-            if not rs or not cs: continue
+            for lst, n in ((rs, X.nr), (cs, X.nc)):
+                if not lst or rng.random() < .2:      # create a new persistent selector array
+                    nsel += 1; nm = 'S%d' % nsel; sels[nm] = [rng.random() < .6 for _ in range(n)]
+                    steps.append(dict(op='newsel', a=a, name=nm, value=list(sels[nm]))); lst.append(nm)
             r_, c_ = rng.choice(rs), rng.choice(cs); st.update(rows=r_, cols=c_)
             res = X.sub(sels[r_], sels[c_])
             st['expect'] = 'self' if all(sels[r_]) and all(sels[c_]) else 'matrix'
@@ -846,7 +869,8 @@ def gen_program(c, batch, length):
             xr = [rng.randint(-3, 3) for _ in range(n)]; xi = [rng.randint(-2, 2) if cplx else 0 for _ in range(n)]
             st.update(shape=list(shape), xr=xr, xi=xi)
             flat = [Q(p, q_) for p, q_ in zip(xr, xi)]
-            inner = n // X.nc if X.nc else 0
+            inner = 1
+            for s_ in shape[1:]: inner *= s_
             want = [[sum((X.rows[i][j] * flat[j * inner + t] for j in range(X.nc)), Q()) for t in range(inner)] for i in range(X.nr)]
             st['want'] = [[(str(x.re), str(x.im)) for x in r] for r in want]
             steps.append(st); continue
@@ -887,7 +911,12 @@ def run_program(c, matrix, Proxy, prog, O, batch, replay_extra=None):
     with_proxy = prog['proxy']
     for name, k in prog['init'].items():
         dtype = dict(float=float, complex=complex)[k['dtype']]
-        M = matrix.assemble_csr(arr(k['v'], k['w'], dtype), numpy.array(k['rp'], dtype=int), numpy.array(k['ci'], dtype=int), k['nc'])
+        try:
+            M = matrix.assemble_csr(arr(k['v'], k['w'], dtype), numpy.array(k['rp'], dtype=int), numpy.array(k['ci'], dtype=int), k['nc'])
+        except Exception as e:      # the initial triples are valid by construction
+            c.failing_input('assemble:zero-rows-fails' if len(k['rp']) == 1 and not isinstance(e, matrix.MatrixError) else 'assemble_csr-rejects-valid',
+                            'a valid triple cannot be assembled (%s: %s)' % (type(e).__name__, str(e)[:80]), dict(op='assemble_csr', case=dict(k, tag='valid')))
+            return 1
         R[name] = Proxy(M) if with_proxy and name != 'B' else M      # B stays a NumpyMatrix: mixed operands go through NumpyMatrix.convert
     sels = {}; flipped_since = {}     # selector name -> matrices that saw it before an in-place flip
     last_sub = {}                     # matrix name -> (rows name, cols name) of the last subsel call
@@ -962,8 +991,10 @@ def run_program(c, matrix, Proxy, prog, O, batch, replay_extra=None):
                 if not any(st['xi']): x = x.real.copy()
                 y = A @ x
                 want = [[Q(Fraction(p), Fraction(q_)) for p, q_ in r] for r in st['want']]
-                got = qrows(numpy.asarray(y).reshape(X.nr, -1)) if y.shape == (X.nr,) + tuple(st['shape'][1:]) else None
-                if got != want and not (X.nr == 0 or (got is not None and sum(map(len, got)) == 0 and sum(map(len, want)) == 0)):
+                inner = 1
+                for s_ in st['shape'][1:]: inner *= s_
+                got = qrows(numpy.asarray(y).reshape(X.nr, inner)) if y.shape == (X.nr,) + tuple(st['shape'][1:]) else None
+                if got != want:
                     fail('matrix-op-wrong:matmul', 'matrix @ array disagrees with the dense matrix defined by the input', st, got=repr(y)); break
             elif op == 'badshape':
                 kind = st['kind']
@@ -1090,14 +1121,20 @@ def stream_precon(c, matrix, N):
         v = [x for r in dense for x in r if x]; ci = [j for r in dense for j, x in enumerate(r) if x]
         rp = [0]
         for r in dense: rp.append(rp[-1] + sum(1 for x in r if x))
-        A = matrix.assemble_csr(numpy.array(v, dtype=float), numpy.array(rp), numpy.array(ci), k)
+        try:
+            A = matrix.assemble_csr(numpy.array(v, dtype=float), numpy.array(rp), numpy.array(ci), k)
+        except Exception as e:
+            bad += 1
+            c.failing_input('assemble_csr-rejects-valid', 'a valid triple cannot be assembled (%s)' % type(e).__name__, dict(op='assemble_csr', case=dict(v=v, w=[0] * len(v), rp=rp, ci=ci, nc=k, dtype='float', tag='valid')))
+            continue
         if it % 2: A = Proxy(A)
         x = [c.rng.randint(-4, 4) * 4 ** k for _ in range(k)]
         sol = [Fraction(0)] * k
         for i in reversed(range(k)):
             sol[i] = (Fraction(x[i]) - sum(dense[i][j] * sol[j] for j in range(i + 1, k))) / dense[i][i]
         want = {'direct': sol, 'diag': [Fraction(x[i], d[i]) for i in range(k)]}
-        seq = [c.rng.choice(['direct', 'diag', ('user', 2), ('user', 3), ('user', 2)]) for _ in range(c.rng.randint(2, 5))]
+        # `_precon_direct` belongs to NumpyMatrix, `_precon_diag` to the base class
+        seq = [c.rng.choice((['direct'] if it % 2 == 0 else []) + ['diag', ('user', 2), ('user', 3), ('user', 2)]) for _ in range(c.rng.randint(2, 5))]
         user = lambda self, k_=1: (lambda y: k_ * y)
         prev = None; prev_obj = None
         for s in seq:
@@ -1140,13 +1177,13 @@ def run(c):
     matrix.backend('numpy').__enter__() if hasattr(matrix.backend('numpy'), '__enter__') else None
     broken = c.build_and_audit()
     quick = c.tier == 'quick'
-    N = 300 if quick else 6000
+    N = 300 if quick else 10000
     if getattr(c, 'replay', None):
         return replay(c, matrix, numeric)
     batch = Batch()
     with matrix.backend('numpy'):
         evals = [stream_csr(c, matrix, batch, N), stream_compress(c, numeric, batch, N), stream_coo(c, matrix, batch, N),
-                 stream_block(c, matrix, batch, N // 2), stream_ops(c, matrix, batch, N // 2)]
+                 stream_block(c, matrix, batch, N), stream_ops(c, matrix, batch, N // 2)]
         c.log('generated %d model requests' % len(batch.lines))
         batch.run(c)
         c.log('model answered; running the implementation')
@@ -1157,6 +1194,37 @@ def run(c):
         stream_precon(c, matrix, 40 if quick else 600)
     for b in broken:
         c.broken_no_input('proof', b, dict(detail=b))
+
+
+def recompute_oracle(prog):
+    """the exact values of every named matrix of a recorded program (same semantics as `gen_program`)"""
+    O = {}
+    for name, k in prog['init'].items():
+        dr = py_dense(k['v'], k['rp'], k['ci'], k['nc']); di = py_dense(k['w'], k['rp'], k['ci'], k['nc'])
+        O[name] = OM([[Q(a, b) for a, b in zip(r, s)] for r, s in zip(dr, di)], k['nc'], k['dtype'] == 'complex')
+    sels = {}
+    for st in prog['steps']:
+        op = st['op']; X = O.get(st['a'])
+        if X is None: break
+        if op in ('add', 'sub'):
+            Y = O[st['b']]; O[st['out']] = X.map2(Y, (lambda x, y: x + y) if op == 'add' else (lambda x, y: x - y))
+        elif op == 'neg':
+            O[st['out']] = X.map1(lambda x: -x)
+        elif op in ('mul', 'rmul', 'div'):
+            sv = eval(st['s']); q = Q.of(sv) if op != 'div' else Q.of(sv).inv()
+            O[st['out']] = X.map1(lambda x: x * q, cplx=X.cplx or isinstance(sv, complex))
+        elif op == 'T':
+            O[st['out']] = X.T()
+        elif op == 'newsel':
+            sels[st['name']] = list(st['value'])
+        elif op == 'flipsel':
+            sels[st['name']][st['index']] = not sels[st['name']][st['index']]
+        elif op == 'subsel' and st.get('expect') == 'matrix':
+            O[st['out']] = X.sub(sels[st['rows']], sels[st['cols']])
+        elif op == 'submatrix' and st.get('expect') == 'matrix':
+            tob = lambda fd, n: [bool(b) for b in fd[1]] if fd[0] == 'bool' else [i in fd[1] for i in range(n)]
+            O[st['out']] = X.sub(tob(st['rows'], X.nr), tob(st['cols'], X.nc))
+    return O
 
 
 def replay(c, matrix, numeric):
@@ -1179,8 +1247,8 @@ def replay(c, matrix, numeric):
         elif op == 'opseq':
             prog = r['program']
             for st in prog['steps']: st.pop('q', None)
-            # recompute the oracle by replaying generation is not possible; re-evaluate with the dense oracle rebuilt from the real initial matrices
-            c.log('replaying an operation program: recomputing the oracle from the recorded steps is done by re-running the seed (%s, tier %s)' % (r.get('seed'), r.get('tier')))
-            raise Infra('replay of operation programs: run ./check C15 --tier %s --seed %s' % (r.get('tier'), r.get('seed')))
+            batch = Batch(); batch.ans = []
+            n = run_program(c, matrix, make_proxy(matrix), prog, recompute_oracle(prog), batch)
+            c.obligation('replay:opseq', n == 0, 'correspondence', '%d steps' % len(prog['steps']))
         else:
             raise Infra('replay of %r is not supported; run ./check C15 --tier %s --seed %s' % (op, r.get('tier'), r.get('seed')))
